@@ -42,7 +42,7 @@ use ironplc_dsl::{
 };
 use ironplc_problems::Problem;
 use petgraph::{
-    algo::toposort,
+    algo::{tarjan_scc, toposort},
     stable_graph::{NodeIndex, StableDiGraph},
 };
 use std::collections::HashMap;
@@ -255,9 +255,26 @@ impl DeclarationsGraph {
         index
     }
 
+    /// Adds the node for a declaration. Unlike a reference to the name, the
+    /// declaration determines the identifier (and so the position) of the node.
+    fn add_declaration(&mut self, id: &Id) -> NodeIndex<u32> {
+        let index = self.add_node(id);
+        self.index_to_id.insert(index, id.clone());
+        index
+    }
+
     fn sorted_ids(&self) -> Result<Vec<Id>, Diagnostic> {
         let sorted_nodes = toposort(&self.graph, None).map_err(|err| {
-            let id_in_cycle = self.index_to_id.get(&err.node_id());
+            // Report the same declaration no matter the order of the declarations:
+            // of the declarations on the cycle, the one having the smallest name.
+            let on_cycle = tarjan_scc(&self.graph)
+                .into_iter()
+                .find(|component| component.contains(&err.node_id()))
+                .unwrap_or_else(|| vec![err.node_id()]);
+            let id_in_cycle = on_cycle
+                .iter()
+                .filter_map(|node| self.index_to_id.get(node))
+                .min_by_key(|id| id.lower_case().clone());
 
             let span = match id_in_cycle {
                 Some(id) => id.span.clone(),
@@ -302,7 +319,7 @@ impl Visitor<Diagnostic> for RuleGraphReferenceableElements {
         &mut self,
         node: &LateBoundDeclaration,
     ) -> Result<Self::Value, Diagnostic> {
-        let this = self.declarations.add_node(&node.data_type_name.name);
+        let this = self.declarations.add_declaration(&node.data_type_name.name);
         let depends_on = self.declarations.add_node(&node.base_type_name.name);
         self.declarations.graph.add_edge(depends_on, this, ());
 
@@ -313,7 +330,7 @@ impl Visitor<Diagnostic> for RuleGraphReferenceableElements {
         &mut self,
         node: &EnumerationDeclaration,
     ) -> Result<Self::Value, Diagnostic> {
-        let this = self.declarations.add_node(&node.type_name.name);
+        let this = self.declarations.add_declaration(&node.type_name.name);
 
         if let EnumeratedSpecificationKind::TypeName(parent) = &node.spec_init.spec {
             let depends_on = self.declarations.add_node(&parent.name);
@@ -327,7 +344,7 @@ impl Visitor<Diagnostic> for RuleGraphReferenceableElements {
         &mut self,
         node: &SubrangeDeclaration,
     ) -> Result<Self::Value, Diagnostic> {
-        let this = self.declarations.add_node(&node.type_name.name);
+        let this = self.declarations.add_declaration(&node.type_name.name);
 
         if let SubrangeSpecificationKind::Type(parent) = &node.spec {
             let depends_on = self.declarations.add_node(&parent.name);
@@ -341,7 +358,7 @@ impl Visitor<Diagnostic> for RuleGraphReferenceableElements {
         &mut self,
         node: &ArrayDeclaration,
     ) -> Result<Self::Value, Diagnostic> {
-        let this = self.declarations.add_node(&node.type_name.name);
+        let this = self.declarations.add_declaration(&node.type_name.name);
 
         if let ArraySpecificationKind::Type(parent) = &node.spec {
             let depends_on = self.declarations.add_node(&parent.name);
@@ -356,7 +373,7 @@ impl Visitor<Diagnostic> for RuleGraphReferenceableElements {
         node: &StructureDeclaration,
     ) -> Result<Self::Value, Diagnostic> {
         self.current_from = Some(node.type_name.name.clone());
-        self.declarations.add_node(&node.type_name.name);
+        self.declarations.add_declaration(&node.type_name.name);
         let res = node.recurse_visit(self);
         self.current_from = None;
         res
@@ -369,7 +386,7 @@ impl Visitor<Diagnostic> for RuleGraphReferenceableElements {
         node: &FunctionDeclaration,
     ) -> Result<Self::Value, Diagnostic> {
         self.current_from = Some(node.name.clone());
-        self.declarations.add_node(&node.name);
+        self.declarations.add_declaration(&node.name);
         let res = node.recurse_visit(self);
         self.current_from = None;
         res
@@ -380,7 +397,7 @@ impl Visitor<Diagnostic> for RuleGraphReferenceableElements {
         node: &FunctionBlockDeclaration,
     ) -> Result<Self::Value, Diagnostic> {
         self.current_from = Some(node.name.clone());
-        self.declarations.add_node(&node.name);
+        self.declarations.add_declaration(&node.name);
         let res = node.recurse_visit(self);
         self.current_from = None;
         res
@@ -391,7 +408,7 @@ impl Visitor<Diagnostic> for RuleGraphReferenceableElements {
         node: &ProgramDeclaration,
     ) -> Result<Self::Value, Diagnostic> {
         self.current_from = Some(node.name.clone());
-        self.declarations.add_node(&node.name);
+        self.declarations.add_declaration(&node.name);
         let res = node.recurse_visit(self);
         self.current_from = None;
         res
@@ -402,7 +419,7 @@ impl Visitor<Diagnostic> for RuleGraphReferenceableElements {
         node: &ironplc_dsl::configuration::ConfigurationDeclaration,
     ) -> Result<Self::Value, Diagnostic> {
         self.current_from = Some(node.name.clone());
-        self.declarations.add_node(&node.name);
+        self.declarations.add_declaration(&node.name);
         let res = node.recurse_visit(self);
         self.current_from = None;
         res
